@@ -134,6 +134,9 @@ func genC01(r *sim.Rng, c *sim.Case, tier string, idx int) {
 			default:
 				op.K = "lockctx"
 				op.E = cancelSpec(r, lease)
+				if op.E < 0 && r.Chance(1, 4) {
+					op.V = "cancel_after"
+				}
 			}
 			task.Ops = append(task.Ops, op)
 			if r.Chance(1, 6) {
@@ -222,7 +225,15 @@ func genC05(r *sim.Rng, c *sim.Case, tier string, idx int) {
 			k = 2 + r.Intn(6)
 		}
 		hold := time.Duration(k)*lease + time.Duration(r.I64n(int64(lease)))
-		c.Tasks = append(c.Tasks, sim.Task{Name: "t0", Ops: []sim.Op{{K: "lockctx", E: -1, D: int64(hold)}}})
+		holder := sim.Op{K: "lockctx", E: -1, D: int64(hold)}
+		if r.Chance(1, 3) {
+			holder.V = "cancel_after" // the acquisition context ends while the lock is held
+		}
+		if r.Chance(1, 3) {
+			// a slow but healthy storage: every renewal call takes a while
+			c.Knobs["cas_latency_ns"] = int64(sim.Pick(r, lease/50, lease/20, lease/10))
+		}
+		c.Tasks = append(c.Tasks, sim.Task{Name: "t0", Ops: []sim.Op{holder}})
 		c.Knobs["locker_t0"] = 0
 		for i := 1; i <= nc; i++ {
 			task := sim.Task{Name: fmt.Sprintf("t%d", i)}
